@@ -74,7 +74,7 @@ func zzIndexOf(log []interface{}, x interface{}) (first, count int) {
 // Walk returns nil.
 func zzWalkKind(k int) {
 	kind := zzKinds[k]
-	n := zz.Choose(3)        // list fields have 0..2 elements
+	n := zz.Choose(3)           // list fields have 0..2 elements
 	absent := zz.Choose(2) == 1 // optional single children present / nil
 	var kids, extra []interface{}
 	root := zzBuild(k, zzLeafMakers(n, absent, &extra), &kids)
